@@ -20,6 +20,7 @@ import shutil
 import subprocess
 import sys
 import tempfile
+import threading
 
 from hypothesis import given, strategies as st
 
@@ -98,6 +99,20 @@ if spec.get("edit_during"):
             os.utime(_ed["path"], (_ed["stamp"], _ed["stamp"]))
         return data
     _be.FileLoader.get_data = _get_data
+if spec.get("concurrent"):
+    # while the bytes of one module are being read for its import, ANOTHER thread imports another module from start to finish
+    import importlib._bootstrap_external as _be2, threading
+    _cc = spec["concurrent"]
+    _orig_get_data2 = _be2.FileLoader.get_data
+    def _get_data2(self, path, _done=[]):
+        if not _done and os.path.basename(path).split(".")[0] == _cc["stem"] and os.path.dirname(path).rstrip("/").replace("/__pycache__", "") == _cc["dir"].rstrip("/"):
+            _done.append(1)
+            th = threading.Thread(target=lambda: importlib.import_module(_cc["module"]))
+            th.start(); th.join(120)
+            if th.is_alive():
+                print("VF18" + json.dumps({"error": "harness: concurrent import did not finish"})); os._exit(0)
+        return _orig_get_data2(self, path)
+    _be2.FileLoader.get_data = _get_data2
 if not spec.get("lazy_spy"):
     import vf_spy18   # otherwise the typechecker module is first imported when the first hooked function is decorated
 mgrs = []
@@ -146,7 +161,7 @@ def run_subprocess(d, run):
     env.pop("SOURCE_DATE_EPOCH", None)
     if run.get("source_date_epoch"):
         env["SOURCE_DATE_EPOCH"] = run["source_date_epoch"]  # reproducible-build environments export it; it changes nothing here
-    r = subprocess.run([sys.executable, "-W", "ignore", "-c", RUNNER, json.dumps({"dir": d, "hooks": run["hooks"], "order": run["order"], "after": run.get("after", []), "dont_write": run.get("dont_write", False), "disabled": run.get("disabled", False), "lazy_spy": run.get("lazy_spy", False), "edit_during": run.get("_edit_during")})],
+    r = subprocess.run([sys.executable, "-W", "ignore", "-c", RUNNER, json.dumps({"dir": d, "hooks": run["hooks"], "order": run["order"], "after": run.get("after", []), "dont_write": run.get("dont_write", False), "disabled": run.get("disabled", False), "lazy_spy": run.get("lazy_spy", False), "edit_during": run.get("_edit_during"), "concurrent": run.get("_concurrent")})],
                        capture_output=True, text=True, env=env, timeout=300)
     line = [l for l in r.stdout.splitlines() if l.startswith("VF18")]
     if not line:
@@ -188,6 +203,22 @@ def run_inprocess(d, run):
             return data
 
         _be.FileLoader.get_data = _get_data
+    cc = run.get("_concurrent")
+    cc_error = []
+    if cc and not ed:
+        cc_done = []
+
+        def _get_data_cc(self, path):
+            if not cc_done and os.path.basename(path).split(".")[0] == cc["stem"] and os.path.dirname(path).rstrip("/").replace("/__pycache__", "") == cc["dir"].rstrip("/"):
+                cc_done.append(1)
+                th = threading.Thread(target=lambda: importlib.import_module(cc["module"]))
+                th.start()
+                th.join(120)
+                if th.is_alive():
+                    cc_error.append("harness: concurrent import did not finish")
+            return _orig_get_data(self, path)
+
+        _be.FileLoader.get_data = _get_data_cc
     try:
         if not run.get("lazy_spy"):
             try:
@@ -219,6 +250,8 @@ def run_inprocess(d, run):
         except BaseException as e:  # noqa: BLE001
             return {"error": f"after-uninstall import: {type(e).__name__}: {e}"}
         jaxtyping.config.update("jaxtyping_disable", False)
+        if cc_error:
+            raise HarnessError(cc_error[0])
         out = {}
         spy = sys.modules.get("vf_spy18")
         for name in MODS:
@@ -321,6 +354,14 @@ def check_history(ctx, hist, mode):
                                 open(fp, "wb").write(data[:24])
                                 damaged = ever_damaged[0] = True
                                 flags.add("damaged-pyc")
+            cmod = run.get("concurrent")
+            m1 = run["order"][0]
+            if cmod and not run.get("edit_during") and m1 not in (BAD, "ph") and cmod != m1 and (cmod.split(".")[0] != m1.split(".")[0]) and not (cmod == "pa" and m1 == "pb"):
+                # while the first module of the run is being read, another thread imports `cmod` from start to finish; what is loaded, and how,
+                # is the same as if it had been imported right after
+                run = dict(run, order=[m1, cmod] + [x for x in run["order"][1:] if x != cmod],
+                           _concurrent={"stem": os.path.basename(FILES[m1])[:-3], "dir": os.path.dirname(os.path.join(d, FILES[m1])), "module": cmod})
+                flags.add("import-from-another-thread-meanwhile")
             exp = model_run(run, versions)
             during = run.get("edit_during")
             if during and during in exp:
@@ -383,6 +424,7 @@ run_st = st.fixed_dictionaries({
     "order": st.lists(st.sampled_from(MODS + [BAD]), min_size=1, max_size=4, unique=True),
     "after": st.lists(st.sampled_from(MODS), max_size=2, unique=True),
     "source_date_epoch": st.sampled_from([None, "315532800", None, None]),
+    "concurrent": st.sampled_from([None, None, "pb", "pkg", "pa", None, "ph", "pkg.sub"]),
 })
 _free_hist_st = st.fixed_dictionaries({"runs": st.lists(run_st, min_size=2, max_size=5), "same_size": st.sampled_from([False, True, False])})
 
@@ -401,7 +443,19 @@ def _template_hist(draw):
     return {"runs": runs, "same_size": same_size}
 
 
-hist_st = st.one_of(_free_hist_st, _free_hist_st, _free_hist_st, _template_hist())
+@st.composite
+def _template_concurrent(draw):
+    """Run 1: two modules hooked with DIFFERENT typecheckers, the second one imported by another thread while the first one is being
+    read; run 2 hooks the second module with the first one's typechecker (or the other way round); optional further free runs."""
+    m1, m2 = draw(st.sampled_from([("pb", "pkg.sub"), ("pa", "ph"), ("pkg.sub", "pb"), ("pb", "ph"), ("pa", "pkg.sub")]))
+    c1, c2 = draw(st.sampled_from([("a", "b"), ("b", "a"), ("a", "none"), ("none", "a")]))
+    base = {"edit": None, "same_mtime": False, "damage": None, "dont_write": False, "disabled": False, "lazy_spy": draw(st.booleans()), "edit_during": None,
+            "hooks": [[[m1], c1], [[m2], c2]], "order": [m1], "after": [], "source_date_epoch": None, "concurrent": m2}
+    second = dict(base, hooks=[[[draw(st.sampled_from([m2, m1]))], draw(st.sampled_from([c1, c2]))]], order=[m2, m1], concurrent=None)
+    return {"runs": [base, second] + draw(st.lists(run_st, max_size=2)), "same_size": False}
+
+
+hist_st = st.one_of(_free_hist_st, _free_hist_st, _free_hist_st, _template_hist(), _template_concurrent())
 
 
 def run(ctx):
